@@ -1,7 +1,8 @@
 (* C13 — A later barrier stage sees an event only after the previous stage finished it. *)
 From Coq Require Import Arith Lia.
 From DC Require Import Disruptor.Pipeline.
-From DC Require Disruptor.HB.
+From DC Require Disruptor.HB Disruptor.PipeReplay.
+From Coq Require Import ZArith.
 
 Theorem C13_stage_order : forall N H stage last s h i a g,
   reachable N H stage last s -> h < H -> g < H -> hp s h = HBatch i a -> S (stage g) = stage h -> i <= done s g.
@@ -38,6 +39,15 @@ Theorem C13_stage_order_percursor_stale_reads : forall N H stage last
   (forall g, g < H -> stage h < stage g -> HB.done s g < i) /\ HB.fill_ptr s <= i + N.
 Proof. exact HB.hb_delivery. Qed.
 
+(* the explored executions of the implementation are replayed on the model (extracted PipeReplay.replay, run by the check on
+   every logged trace): an accepted execution is a model run, hence stage order held in the state it reached *)
+Theorem C13_replayed_run_respects_stage_order : forall N H stage last l r',
+  PipeReplay.replay N H stage last PipeReplay.rinit l 0 = ((-1)%Z, r') ->
+  forall h i a g, h < H -> g < H -> hp (PipeReplay.pm r') h = HBatch i a -> S (stage g) = stage h ->
+  i <= done (PipeReplay.pm r') g.
+Proof. exact PipeReplay.replay_stage_order. Qed.
+
+Print Assumptions C13_replayed_run_respects_stage_order.
 Print Assumptions C13_stage_order.
 Print Assumptions C13_stage_order_percursor_stale_reads.
 Print Assumptions C13_sees_earlier_stages_only.
